@@ -25,7 +25,7 @@ type c11List struct {
 }
 
 func c11Lists() []c11List {
-	one := []string{"a", "e1", "e10", "ab", "a/b", "a/descr", "a_b", "a:b", "a=b", "a=b=c", "a b", "a[b]", "a]", "b"}
+	one := []string{"a", "e1", "e10", "ab", "a/b", "a/descr", "a_b", "a:b", "a=b", "a=b=c", "a b", "a[b]", "a]", "b", "a.b", "a+b"}
 	two := []string{"a", "b", "c", "a_b", "b_c", "a/b", "a b"}
 	three := []string{"a", "b", "a_b", "b_a"}
 	if Tier() == "thorough" {
